@@ -49,6 +49,9 @@ type Op struct {
 	Op string `json:"op"` // deliver | ok | fail | restart | release
 	D  []Ent  `json:"d,omitempty"`
 	B  []K    `json:"b,omitempty"`
+	// BF (ok | fail | release, Bitcoin): per transfer of B the store fault met at the status read / write made
+	// for it there: "" | "r" | "w" (absent = none); see endfault.go
+	BF []string `json:"bf,omitempty"`
 }
 
 type InitEnt struct {
@@ -97,6 +100,9 @@ type faultyStore struct {
 	armed  bool
 	pos    int
 	faults []string
+	// byWrite: the armed operation makes no read per transfer (storeProposalsStatus(executed)): the position
+	// advances with the writes
+	byWrite bool
 }
 
 func (f *faultyStore) fault() string {
@@ -106,8 +112,8 @@ func (f *faultyStore) fault() string {
 	return f.faults[f.pos]
 }
 func (f *faultyStore) PropStatus(s, d uint8, n uint64) (store.PropStatus, error) {
-	if f.armed {
-		f.pos++ // proposalsForExecution asks once per proposal, in order
+	if f.armed && !f.byWrite {
+		f.pos++ // proposalsForExecution (storeProposalsStatus(failed), retry.isExecuted) asks once per proposal, in order
 		if f.fault() == "r" {
 			return store.MissingProp, fk.ErrKV
 		}
@@ -115,6 +121,9 @@ func (f *faultyStore) PropStatus(s, d uint8, n uint64) (store.PropStatus, error)
 	return f.inner.PropStatus(s, d, n)
 }
 func (f *faultyStore) StorePropStatus(s, d uint8, n uint64, st store.PropStatus) error {
+	if f.armed && f.byWrite {
+		f.pos++
+	}
 	if f.fault() == "w" {
 		return fk.ErrKV
 	}
@@ -392,7 +401,10 @@ func contains(l []K, k K) bool {
 }
 
 // finish ends a signing session over b: success (ok) or failed submission.
-func (w *world) finish(b []K, ok bool) {
+func (w *world) finish(b []K, ok bool) { w.finishF(b, nil, ok) }
+
+// finishF: the same with store faults per transfer of b (bf: "" | "r" | "w"; Bitcoin only)
+func (w *world) finishF(b []K, bf []string, ok bool) {
 	if w.c.Dest != "btc" {
 		if ok {
 			for _, k := range b {
@@ -414,6 +426,11 @@ func (w *world) finish(b []K, ok bool) {
 		if ok {
 			st = store.ExecutedProp
 		}
+		if len(bf) > 0 {
+			// storeProposalsStatus(failed): a guard read, then a write per transfer; (executed): a write per transfer
+			w.fs.faults, w.fs.pos, w.fs.byWrite, w.fs.armed = padFaults(bf, len(b)), -1, ok, true
+			defer func() { w.fs.armed, w.fs.byWrite = false, false }()
+		}
 		w.btc.VerifStoreProposalsStatus(props, st)
 		return
 	}
@@ -432,22 +449,31 @@ func (w *world) finish(b []K, ok bool) {
 
 // release: a retry request for a block that holds the deposits b reaches relayer/retry.FilterDeposits
 // (one call per resource, as the retry message names one resource).
-func (w *world) release(b []K) {
+func (w *world) release(b []K) { w.releaseF(b, nil) }
+
+// releaseF: the same with store faults per deposit of b (retry.isExecuted: a read per deposit, a write for a pending one)
+func (w *world) releaseF(b []K, bf []string) {
 	if w.c.Dest != "btc" {
 		return // the EVM / Substrate executors consult the destination, not the status store
 	}
 	byRes := map[[32]byte][]*message.Message{}
+	faults := map[[32]byte][]string{}
+	bf = padFaults(bf, len(b))
 	var order [][32]byte
-	for _, k := range b {
+	for i, k := range b {
 		r := w.c.rid(k)
 		if _, ok := byRes[r]; !ok {
 			order = append(order, r)
 		}
+		faults[r] = append(faults[r], bf[i])
 		byRes[r] = append(byRes[r], &message.Message{Source: k.S, Destination: destDomain, ID: "retry",
 			Data: transfer.TransferMessageData{DepositNonce: k.N, ResourceId: r}})
 	}
 	for _, r := range order {
-		if _, err := retry.FilterDeposits(w.fs, map[uint8][]*message.Message{destDomain: byRes[r]}, r, destDomain); err != nil {
+		w.fs.faults, w.fs.pos, w.fs.byWrite, w.fs.armed = faults[r], -1, false, true
+		_, err := retry.FilterDeposits(w.fs, map[uint8][]*message.Message{destDomain: byRes[r]}, r, destDomain)
+		w.fs.armed = false
+		if err != nil {
 			panic(err)
 		}
 	}
@@ -547,13 +573,13 @@ func run(c Case) Obs {
 		case "deliver":
 			oo = w.deliver(op.D)
 		case "ok":
-			w.finish(op.B, true)
+			w.finishF(op.B, op.BF, true)
 		case "fail":
-			w.finish(op.B, false)
+			w.finishF(op.B, op.BF, false)
 		case "restart":
 			w.restart()
 		case "release":
-			w.release(op.B)
+			w.releaseF(op.B, op.BF)
 		default:
 			panic("unknown op " + op.Op)
 		}
@@ -993,6 +1019,8 @@ func gen(r *vgen.Rng, tier string) []Case {
 	// operations of one Executor meeting inside a call.  Their own streams: the cases above stay what they were
 	out = append(out, genWide(vgen.NewRng(r.U64()), tier)...)
 	out = append(out, genScripts(vgen.NewRng(r.U64()), tier)...)
+	// 8. Bitcoin: store faults at the status reads / writes of session ends and retry releases (endfault.go)
+	out = append(out, genEndFaults(vgen.NewRng(r.U64()), tier)...)
 	return out
 }
 
@@ -1034,11 +1062,11 @@ func coqOps(ops []Op) string {
 				return vgen.Pair(coqK(e.K), map[string]string{"": "NoFault", "r": "ReadErr", "w": "WriteErr"}[e.F])
 			})
 		case "ok":
-			return "ExecOk " + vgen.ListOf(op.B, coqK)
+			return "ExecOk " + coqKF(op)
 		case "fail":
-			return "ExecFail " + vgen.ListOf(op.B, coqK)
+			return "ExecFail " + coqKF(op)
 		case "release":
-			return "Release " + vgen.ListOf(op.B, coqK)
+			return "Release " + coqKF(op)
 		}
 		return "Restart"
 	})
